@@ -83,11 +83,12 @@ Lemma wn_funccall c cs rs g a : walk_node c "funccall" cs rs g a =
                  match ccs, g with
                  | o :: nm :: _, Some (ro :: _) =>
                      match ro, tok_text nm, call_args rest a with
-                     | Ok self, Some m, Ok al => call_method c m self al
+                     | Ok self, Some m, Ok al => if is_dunder m then Err else call_method c m self al
                      | _, _, _ => Err
                      end
                  | _, _ => Err
                  end
+               else if negb (cd ==s "var") then Err
                else match ccs with
                     | h :: _ => match tok_text h, call_args rest a with Some f, Ok al => mk_expr c f al false false | _, _ => Err end
                     | [] => Err
@@ -98,7 +99,8 @@ Lemma wn_funccall c cs rs g a : walk_node c "funccall" cs rs g a =
        end.
 Proof. unfold walk_node, call_args. cbn -[Nat.ltb all_ok].
   destruct (Nat.ltb 2 (List.length cs)); [reflexivity|]. destruct cs as [|carrier rest]; [reflexivity|].
-  destruct carrier as [t|cd ccs|]; try reflexivity; destruct rest as [|[t'|ad acs|] rest']; reflexivity. Qed.
+  destruct carrier as [t|cd ccs|]; try reflexivity; destruct rest as [|[t'|ad acs|] rest']; try reflexivity;
+    destruct (cd ==s "getattr"); try reflexivity; destruct (negb (cd ==s "var")); reflexivity. Qed.
 
 (* ------------------------------------------------------------------ small facts *)
 Lemma all_some_inv {A} (l : list (option A)) r : all_some l = Some r -> l = map Some r.
